@@ -160,6 +160,11 @@ def op_topics(op):
             out.extend(v[2].split(','))
         elif v[0] in ('srvsub', 'srvunsub') and len(v) > 2:
             out.append(v[2])
+        elif v[0] == 'srvsubrepub' and len(v) > 4:
+            out.extend([v[2], v[4]])
+        elif v[0] == 'unsubrace' and len(v) > 5:
+            out.extend(v[4].split(','))
+            out.append(v[5])
     return [t for t in map(_unhex, out) if t is not None]
 
 
